@@ -251,6 +251,29 @@ class LoaderMonitor(Monitor):
             return
         if norm_set(got) != norm_set(recs):
             violation(["C13"], mon, "records-differ-from-what-the-input-denotes", denoted=dicts(recs), **w)
+            return
+        # "each listed (prefix, URI prefix) pair expands and compresses accordingly": the records being right is not
+        # enough - the loaded converter must ANSWER as they say (seed C13-V: look-up structures built from a stale
+        # per-record cache while the records' fields were correct).  Asked through the public methods, unobserved.
+        d = getattr(val, "delimiter", ":")
+        sp2 = spec.SpecConverter(got, d)
+        if sp2.unique and isinstance(d, str) and d:
+            with probe.monitor_mode():
+                for r in got[:12]:
+                    for p_ in spec.all_p(r):
+                        if d in p_:
+                            continue
+                        q = p_ + d + "1"
+                        o = probe.outcome_of(val.expand, q)
+                        if o != ("ret", sp2.expand(q)):
+                            violation(["C13"], mon, "listed-prefix-does-not-expand-as-dictated", curie=q, observed=o, expected=sp2.expand(q), **w)
+                            return
+                    for u_ in spec.all_u(r):
+                        q = u_ + "1"
+                        o = probe.outcome_of(val.compress, q)
+                        if o != ("ret", sp2.compress(q)):
+                            violation(["C13"], mon, "listed-uri-prefix-does-not-compress-as-dictated", uri=q, observed=o, expected=sp2.compress(q), **w)
+                            return
 
 
 class UpgradeMonitor(Monitor):
